@@ -502,6 +502,8 @@ class Types:
             return self.note('function_t', 'handle')
         if name == 'std::array' and args and strip_cvref(args[0]) == 'char':
             return self.note('str_t', 'handle')      # char buffer (only ever handed to logging / libc text functions)
+        if name in ('std::initializer_list', 'initializer_list'):
+            return self.note('initlist_t', 'handle')
         if name in ('std::fpos',):
             return self.note('log_t', 'handle')
         if name in ('std::lock_guard', 'std::unique_lock'):
@@ -1204,6 +1206,10 @@ class FnEmitter:
             if k == 'scalar':
                 return '((%s)0)' % ct
             return '%s__ctor0()' % sanitize(ct)
+        if len(args) == 1 and self.strip(args[0]).get('kind') == 'CXXStdInitializerListExpr' and ct.startswith('vec_'):
+            self.expr(args[0])
+            els = self._initlist
+            return '%s__from_list%d(%s)' % (sanitize(ct), len(els), ', '.join(els))
         nt = n.get('type', {})
         if 'reference_wrapper' in ((nt.get('desugaredQualType') or '') + (nt.get('qualType') or '')) \
                 and ct.endswith(' *') and len(args) == 1:
@@ -1266,7 +1272,14 @@ class FnEmitter:
         return '%s[%s]' % (self.expr(a), self.expr(b))
 
     def e_CXXStdInitializerListExpr(self, n):
-        self.unsupported(n)
+        # {a, b, ...}: the elements, for a container constructor
+        x = n
+        while kids(x) and x.get('kind') != 'InitListExpr':
+            x = kids(x)[0]
+        if x.get('kind') != 'InitListExpr':
+            self.unsupported(n)
+        self._initlist = [self.expr(c) for c in kids(x)]
+        return 'INITLIST'
 
     def e_PredefinedExpr(self, n):
         return self.u.strlit('__func__')
